@@ -246,6 +246,14 @@ def judge(case):
     except Exception as e:
         return {"status": "violation", "kind": "interpret-raises", "detail": {"exc": repr(e), "measured": measured}, "features": feats}
     ok = values_equal(t, got, expected)
+    if ok and form == "list":
+        # the caller's outcome decoded a second time (same list object) still spells the same value
+        try:
+            again = interpret_as_qtype(arg, T, n)
+        except Exception as e:
+            return {"status": "violation", "kind": "interpret-raises", "detail": {"exc": repr(e), "measured": measured, "call": "second"}, "features": feats}
+        if not values_equal(t, again, expected):
+            return {"status": "violation", "kind": "second-decode-differs:list", "detail": {"measured": measured, "first": repr(got), "second": repr(again)}, "features": feats}
     if not ok:
         return {
             "status": "violation",
